@@ -1,6 +1,44 @@
 (** Proofs about the terminal model (model/Term.v) and the TermLike call sequences of
     DrawState::draw_to_term (model/Draw.v): the macro lemmas every screen theorem is built from.
-    INTERFACE block: see the end of this comment (kept stable). *)
+    All for every W >= 1, H >= 1, no bound on sizes; closed under the global context.
+
+    ===================== INTERFACE (statements kept stable) =====================
+    Vocabulary (model/Term.v): [term] zipper, [exec]/[run_ops W H t ops] (W H : nat =
+    N.to_nat of the drawing models' W H), [all_rows], [next_cell], [screen], [pad],
+    [rows_equiv W A B] (= equal as rows of W cells, i.e. modulo trailing blanks),
+    [chunks W s] / [wrap W ls] (rows of W cells; [chunks_unfold] is the defining equation),
+    [ready W H C t] : the written rows are exactly C, the cursor is at column 0 of the blank row
+      below C ([ready_start], t_col = 0) or wrap-pending on the full last row of C ([ready_edge],
+      t_col = W <> 0), only blank rows below;  [reach t] = number of rows of C the cursor can reach
+      by cursor-up without clamping;  [at_end X k v] = cursor at the end of the last row of X;
+    [painted ls W H real] = the lines the paint loop paints before its `break`;
+    [bar_rows ls W] = rows of the Bar lines; [paint_rows W first complete P] = exactly what the
+      loop writes for the painted lines P (incl. fillers).
+    Facts about ready:  ready_row (next_cell = (|C|, 0)), ready_all_rows (all_rows = C ++ blanks),
+      ready_vis.
+    (a) str_spec            : puts from ready, x <> [] \/ t_col = 0  ->  at_end (C ++ chunks W x)
+        line_spec           : exec (TLine x) from ready (same proviso) -> ready (C ++ chunks W x),
+                              t_col = 0, reach' = min (H-1) (reach + |chunks W x|)
+        line_spec_edge_empty: an EMPTY write_line at the right edge only resolves the pending wrap
+    (b) erase_spec          : ready (C ++ F), |F| = n >= 1, n <= reach, (below: t_col = 0 | not below:
+                              t_col <> 0): run_ops ([TUp 1 if below] ++ clear_ops n) -> ready C,
+                              t_col = 0, reach' = reach - n     (erase_spec_zero: n = 0 is a no-op;
+                              erase_phase: both cases packaged)
+        erase_raw           : the same on a raw zipper (rows above untouched: skipn)
+    (c) paint_spec          : paint ls 0 |ls| W H 0 from ready C: real = bar_rows P W; P = [] -> no
+                              calls; P <> [] -> at_end (C ++ paint_rows W true (|P| =? |ls|) P) with
+                              t_vis = min (H-1) (reach + |R| - 1), last row <= W cells
+        paint_rows_equiv    : rows_equiv (paint_rows ..) (wrap W (map lt P)), |paint_rows| = visual_line_count P W
+        paint_rows_last_full: complete -> the last painted row is full (cursor wrap-pending)
+        paint_tail          : the loop from index >= 1 (cursor at the end of the previous line)
+        painted_prefix / painted_bar_rows_le / painted_all : P is the maximal fitting prefix
+    (d) draw_to_term_spec_top : one draw_to_term with Top alignment from ready (C ++ F), |F| = n:
+                              n' = bar_rows P W, the new cursor_below flag, P = [] -> ready C;
+                              P = ls <> [] -> ready (C ++ R), t_col <> 0, reach' = min H (reach - n + |R|)
+        draw_to_term_top_eq : the call list of draw_to_term (Top) = erase ++ paint ++ [TFlush]
+        (Bottom alignment / shift: not covered here.)
+    C19 geometry: chunks_length, wrapped_height_chunks, visual_line_count_wrap, filler_length.
+    ============================================================================== *)
 From Coq Require Import List NArith ZArith Bool Lia Arith ZifyBool ZifyNat ZifyN.
 From IndModel Require Import Term.
 Import ListNotations.
@@ -581,14 +619,14 @@ Section Paint.
     /\ length (last (chunks Wn x) []) <= Wn
     /\ (fill = true -> x <> []).
   Proof using HW.
-    cbv zeta. assert (HWn : 1 <= Wn) by (unfold Wn; lia).
+    clear HH Hn. cbv zeta. assert (HWn : 1 <= Wn) by (unfold Wn; lia).
     pose proof (chunk_acc_rows Wn HWn) as Hrows.
     destruct fill.
     - destruct (chunks_filler_equiv Wn HWn (lt l) (length (filler l W))) as (He & Hl & Hf).
       { apply filler_length. exact HW. }
       assert (Hfi : filler l W = repeat SP (length (filler l W))).
       { unfold filler, spaces. now rewrite repeat_length. }
-      rewrite <- Hfi in *. rewrite Hl, wrapped_height_chunks by exact HW. rewrite Nat2N.id.
+      rewrite <- Hfi in He, Hl, Hf. rewrite Hl, wrapped_height_chunks by exact HW. rewrite Nat2N.id.
       repeat split; try assumption.
       + intros _. exact Hf.
       + destruct (Hrows (lt l ++ filler l W) [] ltac:(cbn; lia)) as (_ & Hb & _). exact Hb.
@@ -724,7 +762,7 @@ Section PaintSpec.
         destruct (line_rows W HW l b) as (Hl1 & He1 & _) end.
       split.
       + apply rows_equiv_app; assumption.
-      + rewrite app_length, visual_line_count_cons, Hl. fold Wn. rewrite Hl1. lia.
+      + rewrite app_length, visual_line_count_cons, Hl, Hl1. lia.
   Qed.
 
   Lemma paint_rows_last_full : forall P first, P <> [] ->
@@ -779,8 +817,8 @@ Section PaintSpec.
         pose proof (chunk_acc_length_pos (N.to_nat W) [] x) as Hpos1. fold (chunks (N.to_nat W) x) in Hpos1.
         assert (Hx : x <> [] \/ t_col t = 0).
         { left. destruct (lt l) as [|c s] eqn:Elt.
-          - apply Hxne. unfold fillp, lwidth, tlen. rewrite Elt. cbn. apply orb_true_r.
-          - unfold x. rewrite Elt. discriminate. }
+          - apply Hxne. unfold fillp, lwidth, tlen. try rewrite Elt. cbn. apply orb_true_r.
+          - unfold x. try rewrite Elt. discriminate. }
         destruct (str_spec Wn Hn C t x HWn HHn Hr Hx) as (k1 & Hputs).
         destruct (paint_tail W H HW HH r (0 + 1)%N real' (N.of_nat (length (l :: r)))
                     (C ++ chunks Wn x) k1
@@ -802,7 +840,143 @@ Section PaintSpec.
           { unfold x, filler. rewrite run_ops_cons, exec_str. destruct fillp; cbn [app].
             - rewrite run_ops_cons, exec_str. now rewrite puts_app.
             - now rewrite app_nil_r. }
-          rewrite Hrun, Hputs, Ta. unfold Wn in *. rewrite <- !app_assoc in *. rewrite app_length.
+          rewrite Hrun, Hputs. unfold Wn, Hn in *. rewrite Ta.
+          rewrite <- !app_assoc in *. rewrite app_length.
           split; [f_equal; lia | exact Tc].
   Qed.
 End PaintSpec.
+
+(* ------------------------------------------------------------------ (d) draw_to_term, Top alignment *)
+Lemma draw_to_term_top_eq ls n below W H :
+  draw_to_term ls n Top below W H =
+    ((if below && (0 <? n)%N then [TUp 1] else []) ++ clear_ops n
+       ++ fst (paint ls 0 (N.of_nat (length ls)) W H 0) ++ [TFlush],
+     snd (paint ls 0 (N.of_nat (length ls)) W H 0),
+     match ls with [] => if (n =? 0)%N then below else true | _ => false end).
+Proof.
+  unfold draw_to_term. destruct (paint ls 0 (N.of_nat (length ls)) W H 0) as [pops real].
+  cbn [fst snd N.eqb negb orb N.to_nat repeat app]. rewrite N.add_0_r.
+  destruct ls; cbn [negb]; [destruct (n =? 0)%N|]; reflexivity.
+Qed.
+
+Lemma run_ops_flush W H t ops : run_ops W H t (ops ++ [TFlush]) = run_ops W H t ops.
+Proof. now rewrite run_ops_app. Qed.
+
+Section DrawSpec.
+  Variable W H : N.
+  Hypothesis HW : (1 <= W)%N.
+  Hypothesis HH : (1 <= H)%N.
+  Let Wn := N.to_nat W.
+  Let Hn := N.to_nat H.
+
+  (** the erase phase for any n, from a ready cursor *)
+  Lemma erase_phase C F t (n : N) (below : bool) :
+    ready Wn Hn (C ++ F) t -> length F = N.to_nat n -> N.to_nat n <= reach t ->
+    ((1 <= n)%N -> if below then t_col t = 0 else t_col t <> 0) ->
+    let t1 := run_ops Wn Hn t ((if below && (0 <? n)%N then [TUp 1] else []) ++ clear_ops n) in
+    ready Wn Hn C t1 /\ reach t1 = reach t - N.to_nat n
+    /\ ((1 <= n)%N -> t_col t1 = 0) /\ (n = 0%N -> t1 = t).
+  Proof using HW HH.
+    assert (HWn : 1 <= Wn) by (unfold Wn; lia).
+    assert (HHn : 1 <= Hn) by (unfold Hn; lia).
+    intros Hr HF Hn' Hb. cbv zeta. destruct (N.eq_dec n 0) as [->|Hpos].
+    - rewrite erase_spec_zero. destruct F; [|cbn in HF; lia]. rewrite app_nil_r in Hr.
+      repeat split; [assumption | cbn; lia | lia].
+    - destruct (erase_spec Wn Hn C F t n below HWn HHn Hr HF Hn' ltac:(lia) (Hb ltac:(lia)))
+        as (Ha & Hc & Hd).
+      repeat split; [assumption | assumption | intros _; assumption | lia].
+  Qed.
+
+  (** (d) one call of draw_to_term with Top alignment: [F] = the rows of the previous frame
+      (n = last_line_count of them), [C] = everything written before.  [P] = painted lines. *)
+  Lemma draw_to_term_spec_top C F t ls (n : N) (below : bool) :
+    ready Wn Hn (C ++ F) t -> length F = N.to_nat n -> N.to_nat n <= reach t ->
+    ((1 <= n)%N -> if below then t_col t = 0 else t_col t <> 0) ->
+    let P := painted ls W H 0 in
+    let R := paint_rows W true (Nat.eqb (length P) (length ls)) P in
+    let t' := run_ops Wn Hn t (fst (fst (draw_to_term ls n Top below W H))) in
+    snd (fst (draw_to_term ls n Top below W H)) = bar_rows P W
+    /\ snd (draw_to_term ls n Top below W H)
+       = match ls with [] => if (n =? 0)%N then below else true | _ => false end
+    /\ (P = [] -> ready Wn Hn C t' /\ reach t' = reach t - N.to_nat n
+                  /\ ((1 <= n)%N -> t_col t' = 0) /\ (n = 0%N -> t' = t))
+    /\ (P <> [] -> exists k,
+          t' = at_end (C ++ R) k (Nat.min (Hn - 1) (reach t - N.to_nat n + length R - 1))
+          /\ length (last (C ++ R) []) <= Wn)
+    /\ (P <> [] -> P = ls ->
+          ready Wn Hn (C ++ R) t' /\ t_col t' <> 0
+          /\ reach t' = Nat.min Hn (reach t - N.to_nat n + length R)).
+  Proof using HW HH.
+    assert (HWn : 1 <= Wn) by (unfold Wn; lia).
+    assert (HHn : 1 <= Hn) by (unfold Hn; lia).
+    intros Hr HF Hn' Hb. cbv zeta. rewrite draw_to_term_top_eq. cbn [fst snd].
+    rewrite !app_assoc, run_ops_flush, run_ops_app.
+    destruct (erase_phase C F t n below Hr HF Hn' Hb) as (Hr1 & Hre1 & Hc1 & Hz1).
+    set (t1 := run_ops Wn Hn t ((if below && (0 <? n)%N then [TUp 1] else []) ++ clear_ops n)) in *.
+    destruct (paint_spec W H HW HH C t1 ls Hr1) as (Pa & Pb & Pc).
+    fold Wn Hn in Pc.
+    split; [exact Pa|]. split; [reflexivity|]. split; [|split].
+    - intros HP. rewrite (Pb HP), run_ops_nil. repeat split; assumption.
+    - intros HP. destruct (Pc HP) as (k & Hk & Hl). exists k. rewrite Hk, Hre1. split; [reflexivity | exact Hl].
+    - intros HP Hall. destruct (Pc HP) as (k & Hk & Hl). rewrite Hk.
+      rewrite Hall in *. rewrite Nat.eqb_refl in *.
+      pose proof (paint_rows_last_full W HW ls true HP) as Hfull. fold Wn in Hfull.
+      pose proof (paint_rows_nonempty W true true ls HP) as Hne.
+      assert (Hlast : length (last (C ++ paint_rows W true true ls) []) = Wn)
+        by (rewrite last_app_ne by exact Hne; exact Hfull).
+      pose proof (chunk_acc_length_pos 0 [] []) as _.
+      assert (Hlen : 1 <= length (paint_rows W true true ls))
+        by (destruct (paint_rows W true true ls); [congruence | cbn; lia]).
+      split; [|split].
+      + apply at_end_ready; [destruct C; [exact Hne | discriminate] | exact Hlast | lia].
+      + unfold at_end, app_state. cbn [t_col]. lia.
+      + rewrite at_end_reach with (W := Wn) by assumption. lia.
+  Qed.
+End DrawSpec.
+
+(* ------------------------------------------------------------------ facts about [painted] (C19) *)
+Local Open Scope N_scope.
+(** [painted] is the maximal prefix whose Bar lines fit: it is a prefix, its bar rows are at most
+    H - real, and the first omitted line is a Bar line that does not fit *)
+Lemma painted_prefix W H : forall ls real,
+  exists rest, ls = painted ls W H real ++ rest
+    /\ match rest with
+       | [] => True
+       | l :: _ => is_bar l = true /\ H < real + bar_rows (painted ls W H real) W + wrapped_height l W
+       end.
+Proof.
+  induction ls as [|l r IH]; intros real.
+  - exists []. split; [reflexivity | exact I].
+  - cbn [painted]. destruct (is_bar l && (H <? real + wrapped_height l W)) eqn:E.
+    + exists (l :: r). split; [reflexivity|]. apply andb_prop in E. destruct E as [Eb El].
+      split; [exact Eb|]. unfold bar_rows. cbn. apply N.ltb_lt in El. lia.
+    + destruct (IH (if is_bar l then real + wrapped_height l W else real)) as (rest & Heq & Hrest).
+      exists rest. split; [cbn [app]; now rewrite <- Heq|].
+      destruct rest as [|l2 rest]; [exact I|]. destruct Hrest as [Hb Hlt]. split; [exact Hb|].
+      unfold bar_rows in *. cbn [filter]. destruct (is_bar l); [rewrite visual_line_count_cons|]; lia.
+Qed.
+
+Lemma painted_bar_rows_le W H : forall ls real, real <= H ->
+  real + bar_rows (painted ls W H real) W <= H.
+Proof.
+  induction ls as [|l r IH]; intros real Hr.
+  - unfold bar_rows. cbn. lia.
+  - cbn [painted]. destruct (is_bar l && (H <? real + wrapped_height l W)) eqn:E.
+    + unfold bar_rows. cbn. lia.
+    + unfold bar_rows in *. cbn [filter]. destruct (is_bar l) eqn:Eb.
+      * cbn [andb] in E. apply N.ltb_ge in E. rewrite visual_line_count_cons.
+        specialize (IH (real + wrapped_height l W) E). lia.
+      * apply IH. exact Hr.
+Qed.
+
+(** everything is painted as soon as the Bar lines fit: omitted bars appear when there is room *)
+Lemma painted_all W H : forall ls real, real + bar_rows ls W <= H -> painted ls W H real = ls.
+Proof.
+  induction ls as [|l r IH]; intros real Hfit; [reflexivity|].
+  cbn [painted]. unfold bar_rows in *. cbn [filter] in Hfit. destruct (is_bar l) eqn:Eb.
+  - rewrite visual_line_count_cons in Hfit. cbn [andb].
+    destruct (N.ltb_spec H (real + wrapped_height l W)); [lia|].
+    f_equal. apply IH. lia.
+  - cbn [andb]. f_equal. apply IH. exact Hfit.
+Qed.
+Local Open Scope nat_scope.
